@@ -569,3 +569,27 @@ try:
     M('C20', 'neutral-rename-cotan', 'src/geom3/mesh/conformal.rs', _o, _n, '', kind='neutral')
 except Exception as _ex:      # the anchor text moved: the drill reports BROKEN-MUTANT for the entries above instead
     pass
+FILF = 'src/geom3/mesh/filtering.rs'
+M('C14', 'near-any-vertex-index-twice', FILF, "                        || check.near_check(tri[1], face.normal())\n                        || check.near_check(tri[2], face.normal())", "                        || check.near_check(tri[1], face.normal())\n                        || check.near_check(tri[1], face.normal())", 'near_mesh:mode')
+M('C14', 'near-all-mode-uses-or', FILF, "                        && check.near_check(tri[1], face.normal())\n                        && check.near_check(tri[2], face.normal())", "                        && check.near_check(tri[1], face.normal())\n                        || check.near_check(tri[2], face.normal())", 'near_mesh:mode')
+M('C14', 'neutral-near-hoist-normal', FILF, """                let face = self.mesh.shape.triangle(i as u32);
+
+                if all_points {
+                    check.near_check(tri[0], face.normal())
+                        && check.near_check(tri[1], face.normal())
+                        && check.near_check(tri[2], face.normal())
+                } else {
+                    check.near_check(tri[0], face.normal())
+                        || check.near_check(tri[1], face.normal())
+                        || check.near_check(tri[2], face.normal())
+                }""", """                let normal = self.mesh.shape.triangle(i as u32).normal();
+
+                if all_points {
+                    check.near_check(tri[0], normal)
+                        && check.near_check(tri[1], normal)
+                        && check.near_check(tri[2], normal)
+                } else {
+                    check.near_check(tri[0], normal)
+                        || check.near_check(tri[1], normal)
+                        || check.near_check(tri[2], normal)
+                }""", '', kind='neutral')
